@@ -96,6 +96,9 @@ def run(chk):
     n = common.tier_n(chk.tier, 60, 400)
     cases = [c for c in xc.corpus_cases("C03")]
     cases += [xg.gen_case(rnd, "multipair" if i % 4 else "wide", "small" if i % 2 else "medium") for i in range(n)]
+    # loans of equal size repaid by an auto-repay order that cannot afford them all: ties must break the same way every run
+    cases += [xg.gen_case(rnd, "cancelrepay" if i % 2 else "equalloans", "small")
+              for i in range(common.tier_n(chk.tier, 12, 100))]
     items, owners = [], []
     ref = []
     import multiprocessing
